@@ -10,7 +10,7 @@ RULE = ('(a) option dictionaries drawn from a pool of Python values per document
         '(b) parse/split/format with random VALID option sets on junk (g2/g3), nearly valid and grammar inputs; (c) every read-only accessor on every node of every resulting tree; '
         'non-trivial = distinct (text, options) or (text, node, accessor) evaluated')
 ASSUMPTIONS = ['right_margin is undocumented (raises NotImplementedError by design) and is outside the option domain', 'MemoryError etc. from CPython internals are out of scope']
-PARTIAL = ['absence of IndexError/AttributeError/... inside the grouping passes and statement filters is explored, not proved; option validation and accessor totality are theorems']
+PARTIAL = ['lexer+splitter total, grouping total (only RecursionError), option validation total, accessor totality, format never leaks RecursionError/StopIteration are theorems; absence of IndexError/… in the statement filters is explored (two known findings KF-C07-1/2 come from there)']
 
 POOL = [None, True, False, 0, 1, 2, -1, 3, 10, 1.0, 0.0, 2.5, float('inf'), float('-inf'), float('nan'), '', 'upper', 'lower', 'capitalize', 'sql', 'python', 'php',
         '3', 'x', ' 4 ', [], 10 ** 30, '1_0', b'2']
@@ -120,6 +120,12 @@ def run(ctx):
             try_format(ctx, text, random_valid_opts(rng), 'valid options')
         if it % 2 == 0:
             accessors(ctx, text, stmts)
+    # deep nesting under the default recursion limit: statement filters overflow before grouping does
+    for depth in (300, 600):
+        for kind in ('(', 'f('):
+            deep = 'select ' + kind * depth + '1' + ')' * depth + ' from t'
+            for o in ({'reindent': True}, {'reindent_aligned': True}, {'strip_whitespace': True}, {'strip_comments': True}, {'use_space_around_operators': True}):
+                try_format(ctx, deep, o, 'deep nesting')
     for c in streams.corpus('C07'):
         try_format(ctx, c['input'], c.get('options', {}), 'corpus')
     ctx.samples.append({'probe': PROBE[:60], 'pool': [repr(v) for v in POOL[:12]]})
